@@ -217,6 +217,15 @@ class MoveAnalysis:
             return False
         return self.v in nm or bool(nm & st.taint) or bool(rs & st.fresh)
 
+    def image_of(self, e: ast.AST, st: State) -> Optional[str]:
+        """e reads exactly one stale positional field F and the translation takes part: the moved image of F"""
+        rs = self.reads(e)
+        nm = names_in(e)
+        stale = (rs & self.pos) - st.fresh
+        if len(stale) == 1 and (self.v in nm or nm & st.taint):
+            return next(iter(stale))
+        return None
+
     def is_empty_container(self, e: ast.AST) -> bool:
         if isinstance(e, (ast.List, ast.Tuple, ast.Set, ast.Dict)):
             return not (e.elts if not isinstance(e, ast.Dict) else e.keys)
@@ -326,6 +335,11 @@ class MoveAnalysis:
                     axes.add((f, i))
                     if {(f, 0), (f, 1), (f, 2)} <= axes:
                         fresh.add(f)
+        if isinstance(a, ast.Delete):
+            for t in a.targets:
+                f = self.self_field(t)
+                if f is not None and f in self.cache:
+                    fresh.add(f)  # `del self.f`: the stored value is dropped, the next reader computes it anew
         if isinstance(a, ast.Assign):
             for t in a.targets:
                 f = self.self_field(t)
@@ -337,7 +351,10 @@ class MoveAnalysis:
                     else:
                         fresh.discard(f)
                 elif isinstance(t, ast.Name):
-                    if self.derived(a.value, State(fresh, taint, axes)) or self.is_empty_container(a.value):
+                    if self.derived(a.value, State(fresh, taint, axes)) or self.is_empty_container(a.value) \
+                            or self.image_of(a.value, State(fresh, taint, axes)) is not None:
+                        # (a local holding the moved image of ONE not yet refreshed field -- `moved = [p.move(v) for p in
+                        # self.points]` -- is moved state, exactly as `self.points = [p.move(v) ...]` refreshes the field)
                         taint.add(t.id)
                     else:
                         taint.discard(t.id)
@@ -392,10 +409,17 @@ class MoveAnalysis:
             work.append(s)
         while work:
             n = work.pop()
-            out = self.transfer(g.nodes[n], IN[n])
+            out0 = self.transfer(g.nodes[n], IN[n])
             for y, l in g.succ[n]:
                 if y in (g.raise_exit,):
                     continue
+                out = out0
+                na = g.nodes[n].ast
+                # `if hasattr(self, "f")`: on the false edge the attribute-absent cache f does not exist -- nothing stale
+                if l == "F" and isinstance(na, ast.Call) and isinstance(na.func, ast.Name) and na.func.id == "hasattr" and len(na.args) == 2 \
+                        and isinstance(na.args[0], ast.Name) and na.args[0].id == self.sn and isinstance(na.args[1], ast.Constant) \
+                        and na.args[1].value in self.cache:
+                    out = State(set(out0.fresh) | {na.args[1].value}, out0.taint, out0.axes)
                 new = out if y not in IN else IN[y].meet(out)
                 if y not in IN or new.key() != IN[y].key():
                     IN[y] = new
